@@ -11,8 +11,9 @@ import QuicModel.Conn.AckManager
     tx <t_us> <own pn> <ack_eliciting 0|1> <ranges hi-range first: lo-hi,lo-hi,… | -> [<mode n|p|m|v>]
           (`-` = the packet carries no ACK frame; mode: n Normal (default), p LossRecoveryProbing,
            m MtuProbing, v PathValidationOnly — the last two never consult the ack manager)
-    acked <ranges lo-hi,…>      every range of a received ACK frame, in frame order: one `on_packet_ack` each
-    lost <own pn,own pn,…>      one `on_packet_loss` per packet number
+    acked <ranges lo-hi,…> [<t_us>]   every range of a received ACK frame, in frame order: one `on_packet_ack` each
+    lost <own pn,own pn,…> [<t_us>]   one `on_packet_loss` per packet number
+          (the optional time is only used by the promptness bookkeeping `late=`)
 
   What is not observable is non-deterministic, so the acceptor tracks a SET of model states
   (`branches`): the connection calls `on_timeout(now)` on every wake-up, which the trace does not
@@ -32,7 +33,9 @@ import QuicModel.Conn.AckManager
       passive-ack-omitted  Normal mode, `Passive`, ranges held and the packet is ack-eliciting (it carries
                            other frames, so the constraint allowed transmitting / retransmitting)
   SOFT (counted, reported in the answer): `exact=0` the ranges differ from the model's full range list;
-    `probe-noack` a loss-recovery probe without ACK although the model holds ranges.
+    `probe-noack` a loss-recovery probe without ACK although the model holds ranges; `late=<µs>` how long the
+    ACK the model wants (forced interest since / delay-timer deadline) has been overdue at this op — judged by
+    props/parts/C08_acktrace.py on receiver-only endpoints only (ACK-only packets of a sender are paced).
   Answers: `ok b=<branches> [exact=0|1] …` | `err <reason>` | `bad-op`.
 -/
 namespace Quic.Drivers.AckTrace
@@ -42,8 +45,8 @@ inductive TOp where
   | cfg (maxAckDelayUs limit : Nat)
   | rx (t pn : Nat) (ackEliciting ce pathChallenge : Bool)
   | tx (t ownPn : Nat) (ackEliciting : Bool) (ranges : Option (List Interval)) (mode : Mode)
-  | acked (ranges : List Interval)
-  | lost (pns : List Nat)
+  | acked (ranges : List Interval) (t : Option Nat)
+  | lost (pns : List Nat) (t : Option Nat)
   deriving Repr, DecidableEq
 
 structure Acc where
@@ -84,6 +87,8 @@ def dueAfter (old : Option Nat) (bs : List State) (now : Nat) : Option Nat :=
 def opTime : TOp → Option Nat
   | .rx t _ _ _ _ => some t
   | .tx t _ _ _ _ => some t
+  | .acked _ t => t
+  | .lost _ t => t
   | _ => none
 
 /-- an armed timer this far in the past must have fired (the connection timer wakes the connection
@@ -226,20 +231,23 @@ def acceptCore (a : Acc) : TOp → Acc × Ans
   | .rx t pn ae ce pc => acceptRx a t pn ae ce pc
   | .tx t ownPn ae (some obs) m => acceptTxAck a t ownPn ae obs m
   | .tx t _ ae none m => acceptTxNoAck a t ae m
-  | .acked rs => acceptAcked a rs
-  | .lost pns => acceptLost a pns
+  | .acked rs _ => acceptAcked a rs
+  | .lost pns _ => acceptLost a pns
 
-/-- how long the ACK frame of this `tx` is overdue w.r.t. the model (0 when not) -/
-def lateness (a : Acc) : TOp → Nat
-  | .tx t _ _ (some _) _ => match a.due with | some d => t - d | none => 0
-  | _ => 0
+/-- how long an ACK frame has been overdue w.r.t. the model when this op happens (0 when not): for a `tx`
+    with ACK frame the delay of that frame, for any other timed op the time the endpoint has let pass
+    without sending the ACK the model wants -/
+def lateness (a : Acc) (op : TOp) : Nat :=
+  match opTime op, a.due with
+  | some t, some d => t - d
+  | _, _ => 0
 
 def accept (a : Acc) (op : TOp) : Acc × Ans :=
   let r := acceptCore a op
   let clock := match opTime op with | some t => max a.clock t | none => a.clock
-  let ans := match r.2, op with
-    | .ok info, .tx _ _ _ (some _) _ => .ok (info ++ s!" late={lateness a op}")
-    | x, _ => x
+  let ans := match r.2 with
+    | .ok info => .ok (info ++ s!" late={lateness a op}")
+    | x => x
   ({ r.1 with due := dueAfter a.due r.1.branches clock, clock := clock }, ans)
 
 /-- a whole trace: the answers in op order -/
@@ -297,8 +305,16 @@ def parse (t : List String) : Option TOp :=
     | some ts, some own, some ae, some obs, some m =>
       if ts ≤ timeMax ∧ own ≤ pnMax then some (.tx ts own ae obs m) else none
     | _, _, _, _, _ => none
-  | ["acked", rs] => (ranges? rs).map .acked
-  | ["lost", ps] => (pns? ps).map .lost
+  | ["acked", rs] => (ranges? rs).map (fun r => .acked r none)
+  | ["lost", ps] => (pns? ps).map (fun r => .lost r none)
+  | ["acked", rs, ts] =>
+    match ranges? rs, ts.toNat? with
+    | some r, some t => if t ≤ timeMax then some (.acked r (some t)) else none
+    | _, _ => none
+  | ["lost", ps, ts] =>
+    match pns? ps, ts.toNat? with
+    | some r, some t => if t ≤ timeMax then some (.lost r (some t)) else none
+    | _, _ => none
   | _ => none
 
 /-- debugging aid appended to every `ok` answer: transmission state / retransmission budget /
